@@ -125,6 +125,8 @@ func runC18(r *core.Run) {
 		"SELECT c1 FROM tbl WHERE EXISTS (SELECT 1 FROM tbl u WHERE u.c1 = tbl.c1) AND c2 LIKE 'a%' ESCAPE '\\\\'", "SELECT 'it\\'s'", "SELECT 'a\\\\b'", "SELECT 'C:\\\\new\\\\'", "SELECT 'tab\\there'", "SELECT \"dq\"", "SELECT 'x' AS `b\\\\q`", "SELECT 'back\\\\' || c2 FROM tbl", "SELECT 'q\\\\' || 'r\\\\t'",
 		"SELECT 1 - -2, -(-3), - 4 * -5, !TRUE, NOT NOT FALSE", "SELECT - -1", "SELECT - - -2 AS r", "SELECT 3 - - 1, + -1, - +1", "SELECT -(-(1))", "SELECT - -c1 FROM tbl",
 		"DECLARE `my func` FUNCTION (@a) AS BEGIN RETURN @a + 1; END; SELECT `my func`(1) AS r", "SELECT 1 AS `select`, 2 AS `a b`, 3 AS `x``y`", "SELECT `c1` FROM `tbl` AS `t t`",
+		"SELECT `values`.c1 + 1 FROM tbl AS `values`", "SELECT `order`.c1 * 2, `order`.c2 || 'x' FROM tbl `order` WHERE `order`.c1 > 1", "SELECT `true`.c1 + 0 FROM tbl `true`", "SELECT `count`.c1 - 1 FROM tbl `count`",
+		"SELECT `select`.`from` + 1 FROM (SELECT c1 AS `from` FROM tbl) `select`", "SELECT `t t`.c1 + 1 FROM tbl `t t`", "SELECT `null`.1 + 1 FROM tbl `null`",
 		"SELECT LISTAGG(c2, 'a') OVER () AS x, LISTAGG(c2, 'A') OVER () AS y FROM tbl", "SELECT COUNT(c1) AS n, COUNT(C1) AS m FROM tbl", "SELECT 1 + 2 * 3 - (4 - 5) - 6, (1 + 2) * 3, 10 / (5 / 5), 2 * (3 % 2)", "SELECT 'a' || 'b' || ('c' || 'd'), 1 < 2 AND 2 < 3 OR 3 < 2, (1 < 2 OR 2 < 1) AND TRUE",
 		"SELECT CASE WHEN c1 > 1 THEN 'big' WHEN c1 = 1 THEN 'one' END AS r, IF(c1 > 2, c1, NULL), COALESCE(NULL, c2, 'x') FROM tbl",
 		"SELECT c1 AS `my col`, c2 AS \"other\" FROM tbl ORDER BY `my col` DESC", "SELECT @v := 3, @@CPU, @%HOME IS NULL", "SELECT * FROM (SELECT c1 AS x FROM tbl) s WHERE s.x = ANY (SELECT c1 FROM tbl)",
